@@ -265,26 +265,69 @@ def rowOfNat (r : Nat) : Nat × Nat × Nat := (r / 10 ^ 20, r / 100 % 10 ^ 18, r
 def unpack (p : Nat × Nat) : List (Nat × Nat × Nat) :=
   (List.range p.1).map fun i => rowOfNat (p.2 / 10 ^ (28 * (p.1 - 1 - i)) % 10 ^ 28)
 
-def rowsOf (chunk : List (Nat × Nat)) : List (Nat × Nat × Nat) := chunk.flatMap unpack
+/-- The irregular rows (unknown / missing / non-dict function, further domain and operation values,
+    alternative Python values of every abstract digit) are checked row by row. -/
+def rowsOk (packed : List (Nat × Nat)) : Bool := (packed.flatMap unpack).all rowOk
 
-def chunkOk (chunk : List (Nat × Nat)) : Bool := (rowsOf chunk).all rowOk
+/-! The complete product over the handled functions travels in blocks: one block per
+    (function, domain, operation) with the outcomes of all id-shape patterns of that function in the
+    fixed order `idPatterns`, as 20-digit records `outcome code (18) . build view (2)` behind a leading 1. -/
 
-/-- The complete per-entry product the generator must cover, as entry codes:
-    5 handled functions x 8 domains x 11 operations x 6 shapes of each id field the function reads
-    (the others absent); unknown / missing function x 8 domains x 11 operations; a non-dict entry. -/
-def usesGroup : Nat → Bool := fun f => f == 2
-def usesSkill : Nat → Bool := fun f => f == 3 || f == 4
+def funcOfDigit : Nat → Option Func
+  | 0 => some .item | 1 => some .location | 2 => some .locationGroup | 3 => some .locationSkill
+  | 4 => some .ownerSkill | _ => none
 
-def productCodes : List Nat :=
-  (List.range 5).flatMap (fun f =>
-    (List.range 8).flatMap fun d => (List.range 11).flatMap fun o =>
-      (if usesGroup f then List.range 6 else [5]).flatMap fun g =>
-      (if usesSkill f then List.range 6 else [5]).flatMap fun s =>
-      (List.range 6).flatMap fun t => (List.range 6).map fun m =>
-        f * 10000000 + d * 1000000 + o * 10000 + g * 1000 + s * 100 + t * 10 + m)
-  ++ [5, 6].flatMap (fun f => (List.range 8).flatMap fun d => (List.range 11).map fun o =>
-        f * 10000000 + d * 1000000 + o * 10000)
-  ++ [70000000]
+/-- Which id fields (groupID, skillTypeID, modifiedAttributeID, modifyingAttributeID) a function reads. -/
+def usesField : Func → Nat → Bool
+  | .locationGroup, 0 => true
+  | .locationSkill, 1 => true
+  | .ownerSkill, 1 => true
+  | _, 2 => true
+  | _, 3 => true
+  | _, _ => false
+
+def idBase : Nat → Int
+  | 0 => 10 | 1 => 20 | 2 => 30 | _ => 40
+
+def shapesOf (p : Nat) (digits : List Nat) : List IdShape := digits.filterMap (decId (idBase p))
+
+/-- An int where the function reads the field, absent otherwise. -/
+def goodShape (f : Func) (p : Nat) : IdShape := if usesField f p then .int (idBase p + 1) else .missing
+
+/-- Id-shape patterns of a block: first the product of the six basic shapes (int, int-valued str, float,
+    non-numeric str, None, absent) over every field the function reads, the other fields absent; then,
+    one field at a time, the further shapes (nan, negative int, negative float, bool) for a field that is
+    read and every present shape for a field that is not read, the rest good. -/
+def idPatterns (f : Func) : List (IdShape × IdShape × IdShape × IdShape) :=
+  let main (p : Nat) := if usesField f p then shapesOf p (List.range 6) else [.missing]
+  let side (p : Nat) := shapesOf p (if usesField f p then [6, 7, 8, 9] else [0, 1, 2, 3, 4, 6, 7, 8, 9])
+  ((main 0).flatMap fun g => (main 1).flatMap fun s => (main 2).flatMap fun t => (main 3).map fun m => (g, s, t, m))
+  ++ (side 0).map (fun x => (x, goodShape f 1, goodShape f 2, goodShape f 3))
+  ++ (side 1).map (fun x => (goodShape f 0, x, goodShape f 2, goodShape f 3))
+  ++ (side 2).map (fun x => (goodShape f 0, goodShape f 1, x, goodShape f 3))
+  ++ (side 3).map (fun x => (goodShape f 0, goodShape f 1, goodShape f 2, x))
+
+/-- Expected content of the block with header digits `f d oo`. -/
+def blockSpec (hdr : Nat) : Option Nat :=
+  match funcOfDigit (hdr / 1000), decDomain (hdr / 100 % 10), decOp (hdr % 100) with
+  | some f, some d, some o =>
+    some ((idPatterns f).foldl (fun acc (g, s, t, m) =>
+      let c := convertEntry (.dict (.known f) d o g s t m)
+      acc * 10 ^ 20 + (encodeOutcome c * 100 + viewOf c)) 1)
+  | _, _, _ => none
+
+def blockOk (b : Nat × Nat) : Bool := blockSpec b.1 == some b.2
+
+/-- Headers of the complete product: 5 handled functions x 8 domains x 11 operations, in order. -/
+def productHeaders : List Nat :=
+  (List.range 5).flatMap fun f => (List.range 8).flatMap fun d => (List.range 11).map fun o =>
+    f * 1000 + d * 100 + o
+
+/-- Entry codes the row table must contain besides: unknown / missing function x 8 domains x 11
+    operations, and a non-dict entry. -/
+def productRowCodes : List Nat :=
+  ([5, 6].flatMap fun f => (List.range 8).flatMap fun d => (List.range 11).map fun o =>
+    f * 10000000 + d * 1000000 + o * 10000) ++ [70000000]
 
 /-- Status grid row: `(valid entries, convertible-but-invalid entries, failing entries, status code,
     number of emitted modifiers)`. -/
